@@ -128,10 +128,11 @@ C09_Inert(r, rBase) == NoWarnings(r) = NoWarnings(rBase)
 C09_WarningsDescribeTheRow(feed, r, acc, warnOk) ==
     /\ Len(warnOk) = Len(r.warnings)
     /\ \A i \in DOMAIN r.warnings :
-         \/ (* a warning about a row of any file: that row exists, produced no entity, and the warning shows its cells *)
+         \/ (* a warning about a row of any file: that row exists and the warning shows its cells (the property speaks *)
+            (* about warnings for rejected rows; a parser may also warn about a row it keeps, e.g. for a dangling     *)
+            (* optional reference, and such a warning must describe its row all the same)                            *)
             /\ r.warnings[i].file \in Range(Files)
             /\ InRange(r.warnings[i].row, Rows(feed, r.warnings[i].file))
-            /\ r.warnings[i].row \notin Range(acc[r.warnings[i].file])
             /\ warnOk[i]
          \/ (* the header of some file lacks a required column: the warning is about row 0 and shows that header *)
             /\ r.warnings[i].row = 0
